@@ -5,9 +5,15 @@
 // The real x509.Certificate.Verify / ValidateWithStupidDetail run on every
 // case; every returned chain is judged by a soundness checker that reads the
 // certificates through crypto/x509 only (oracle.go).
+//
+// Certificate VERSION is one of the deviation dimensions: X.509 v1 and v2
+// certificates (which CreateCertificate cannot issue) are hand-encoded and
+// signed with the standard library (version.go) for leaf, intermediate and
+// root positions; a v1 / v2 intermediate is never a CA certificate.
 package main
 
 import (
+	stdx509 "crypto/x509"
 	"encoding/json"
 	"fmt"
 	"sort"
@@ -213,6 +219,21 @@ func (k *checker) judge(p *pki, o optCase, r *result) {
 					}
 				}
 				k.violation(p, o, r, fmt.Sprintf("partition: chain whose common window makes it %s is listed as %s", strings.Join(want, "|"), listName[li]), ch, listName[li], "")
+			}
+			// certificate version / key usage of the certificates in returned chains (non-vacuity of those dimensions;
+			// an intermediate of version 1 / 2 is never a CA and already an "unsound chain" above)
+			if v := ch[0].std.Version; v != 3 {
+				h[fmt.Sprintf("version:returned chain starts at a v%d leaf", v)]++
+			}
+			if v := ch[len(ch)-1].std.Version; v != 3 && len(ch) > 1 {
+				h[fmt.Sprintf("version:returned chain ends at a trusted v%d root", v)]++
+			}
+			for _, g := range ch[1:] {
+				if ku := g.std.KeyUsage; ku != 0 && ku&stdx509.KeyUsageCertSign == 0 {
+					h["keyusage:returned chain has an issuer whose keyUsage lacks keyCertSign (statement silent: accepted)"]++
+				} else if ku != 0 {
+					h["keyusage:returned chain has an issuer whose keyUsage includes keyCertSign"]++
+				}
 			}
 			cls := "chain:" + listName[li]
 			if boundary {
@@ -515,18 +536,24 @@ func main() {
 		}
 
 		maxD := ev.Pick(c, 2, 3)
+		quickTier = c.Quick()
 		c.Rule(fmt.Sprintf("PKI = one of %d hand-listed topologies (<= %d entities) with every set of <= %d deviations over per-certificate fields "+
-			"{ca 3, pathlen 3 (4 in diamond-tall), eku 5, validity 5, kid 3, badsig 2, pool 3, leaf names 4} and pool order {as listed, reversed}; per-topology caps: RSA/ECDSA <= 1, diamond-tall <= 1 quick / 2 thorough, mesh <= 2. "+
+			"{ca 3 (CA | BasicConstraints cA=false | no BasicConstraints), pathlen 3 (4 in diamond-tall), eku 5, validity 5, kid 3, badsig 2, pool 3, leaf names 4, "+
+			"version 3 (v3 | v1 | v2: hand-encoded TBSCertificate without extensions, signed with the standard library, for leaf, intermediate and root positions), "+
+			"keyusage on CA positions (none | digitalSignature only | thorough tier: keyCertSign+cRLSign)} and pool order {as listed, reversed}; per-topology caps: RSA/ECDSA <= 1, diamond-tall <= 1 quick / 2 thorough, mesh <= 2. "+
 			"Options: PKIs with < d deviations get the full product 9 instants x 4 usage lists x 3 DNS names (108), PKIs with exactly d deviations get all 9 instants at default options plus all 12 usage x name pairs at one instant (20). "+
 			"ValidateWithStupidDetail runs on every default-usage case (full) or at instants 0 and 5 (star). Every case is also compared with the reference enumeration of the chains that satisfy the statement (completeness / non-vacuity, see assumptions). A case is non-trivial when Verify returned at least one chain.",
 			len(tops), 6, maxD))
 		c.Assume("crypto/x509 parses the minted DER and decides signature validity, CA flag, path length, EKU, validity and names for the oracle",
 			"certificates are minted with zcrypto x509.CreateCertificate (through fx.Mint); a certificate that either parser rejects stops the run as broken",
+			"X.509 v1 / v2 certificates are the minted certificate's TBSCertificate re-encoded with encoding/asn1 without version-3 fields and signed again with crypto/rsa, crypto/ecdsa, crypto/ed25519 (version.go); crypto/x509 must read back the version and no extensions",
+			"a v1 / v2 certificate is never a CA certificate (no basic constraints): as an intermediate it makes a chain unsound; as a leaf it is fine; in Roots it is a trust anchor (roots are not required to be CAs) and — crypto/x509 and RFC 5280 4.2.1.9 agreeing — a chain to it must be returned like a chain to a v3 CA root (completeness guard)",
+			"key usage: the statement is silent; CheckSignatureFrom documents that an issuer whose keyUsage extension lacks keyCertSign is refused — chains through such an issuer are accepted returned or not (counted), an issuer with keyCertSign behaves like one without the extension",
 			"roots are not required to be CA certificates or within a path-length limit (the statement speaks of intermediates)",
 			"self-issued intermediates may or may not count towards a path-length limit",
 			"at an instant equal to an end of the common window both neighbouring classes are accepted; a one-instant window may be listed as never-valid",
 			"EKU: a chain satisfies the request when ONE requested usage is permitted by every certificate of the chain (usages are 'a constraint down the chain', VerifyOptions.KeyUsages; no EKU list or anyExtendedKeyUsage permits everything, SGC counts as serverAuth as coded, a requested ExtKeyUsageAny accepts every chain)",
-			"completeness is not promised by the statement and is demanded only as a non-vacuity guard: a chain that satisfies every clause under the strictest reading (crypto/x509-based enumeration over the supplied pools) must be returned unless a documented rule of the search explains its absence — leaf in Roots (one-certificate answer), a repeated (subject, key) pair, a root that is not a CA or is beyond its own path-length limit, an intermediate that is itself in Roots, an AKID that selects candidates by key id, or an intermediate that can be arrived at from the leaf along two different prefixes (per-certificate memo: counted, and the 0-deviation PKI must still list a chain in every date class that holds one)",
+			"completeness is not promised by the statement and is demanded only as a non-vacuity guard: a chain that satisfies every clause under the strictest reading (crypto/x509-based enumeration over the supplied pools) must be returned unless a documented rule of the search explains its absence — leaf in Roots (one-certificate answer), a repeated (subject, key) pair, a version 3 root that is not a CA or a root beyond its own path-length limit, an issuer whose keyUsage lacks keyCertSign, an intermediate that is itself in Roots, an AKID that selects candidates by key id, or an intermediate that can be arrived at from the leaf along two different prefixes (per-certificate memo: counted, and the 0-deviation PKI must still list a chain in every date class that holds one)",
 			"a chain returned twice inside one list is recorded, not flagged")
 
 		// the Entrust topology only does its job if the minted SPKI is byte-identical to the exempted one
